@@ -23,6 +23,16 @@ type Mutex struct {
 //go:norace
 func (m *Mutex) VReady(k vrt.OpKind) bool { return !m.held }
 
+// VOwner: the thread that holds the mutex (-1 if it is free); used to find the cycle of a dead-lock.
+//
+//go:norace
+func (m *Mutex) VOwner() int {
+	if m.held {
+		return m.owner
+	}
+	return -1
+}
+
 //go:norace
 func (m *Mutex) Lock() {
 	if vrt.IsControlled() {
